@@ -297,6 +297,37 @@ def lazy_probe(R, pid, name, da, ops, opname, rng, pixelwise, case=None):
     return True
 
 
+def late_mutation_probe(R, pid, name, da, rng, nt, opname, case=None):
+    """A lazy result is the result of the call that built it: arrays the caller handed over as parameters (group labels, a
+    lambda grid, labels and template of the interpolation) may be overwritten - a buffer reused for the next call -
+    between the call and ``compute()``; in memory the call has long finished by then, dask-backed it must not matter."""
+    import dask
+
+    ref = outcome(_ops(pid, rng, nt)[opname], fresh(da))
+    if ref[0] != "ok":
+        return True
+    op2 = _ops(pid, rng, nt)[opname]  # a table of its own: the arrays its operations close over are private to this probe
+    arrays = [c.cell_contents for c in (op2.__closure__ or ()) if isinstance(c.cell_contents, np.ndarray) and c.cell_contents.flags.writeable and c.cell_contents.size > 1]
+    if not arrays:
+        R.count("present_late_mutation_no_array_parameter")
+        return True
+    py, px = _pixdims(da)
+    try:
+        lazy = op2(fresh(da).chunk({py: 1, px: -1, "time": -1}))
+    except Exception as e:  # noqa: BLE001
+        R.violation(f"{pid}:lazy", f"{name} on a dask-backed cube raises {type(e).__name__}", dict(case or {}, op=name))
+        return False
+    for a in arrays:
+        a[...] = a[::-1].copy() if a.ndim == 1 and not np.array_equal(a, a[::-1]) else 0
+    got = outcome(lambda _d: dask.compute(lazy)[0], da)
+    R.count("present_late_mutation_probes")
+    if not same(got, ref):
+        R.violation(f"{pid}:lazy-late-binding", f"{name}: the lazy result was built, then the caller's parameter arrays ({', '.join(str(a.shape) for a in arrays)}) were overwritten, then it was computed: "
+                    f"{describe(got)}; the call made in memory {describe(ref)}", dict(case or {}, op=name))
+        return False
+    return True
+
+
 # ---- parameter spellings -------------------------------------------------------------------------------------------
 def spellings(pid, rng, nt):
     """{op name: [(label, fn, strict)]}: the same call with its parameter values spelled differently."""
@@ -573,6 +604,7 @@ def shard(spec, R, pid):
         full = f"{name} ({dtype}, dims {order})"
         if mode == 3:
             lazy_probe(R, pid, full, da, ops, name, rng, pid in PIXELWISE, case)
+            late_mutation_probe(R, pid, full, da, rng, nt, name, case)
         elif mode == 0:
             container_probe(R, pid, full, da, ops[name], rng, pid in PIXELWISE, case)
         elif mode == 1:
